@@ -293,7 +293,15 @@ func Property(t *testing.T, prop, check string, st *ev.Stats, pre int, body func
 			c.Ch = choose.NewRecorder(choose.NewScriptChooser(sc.Draws))
 			c.runBody(body)
 			if c.failed {
-				t.Errorf("replay reproduced: property=%s sig=%s (attempt %d): %s", prop, sc.Sig, i+1, sc.Message)
+				msg := sc.Message
+				if n := len(st.Failures); n > 0 {
+					msg = st.Failures[n-1].Sig + ": " + st.Failures[n-1].Message
+				}
+				fmt.Fprintf(os.Stderr, "replay reproduced (attempt %d): property=%s %s\n", i+1, prop, msg)
+				for _, l := range c.Ch.Notes {
+					fmt.Fprintln(os.Stderr, "  | "+l)
+				}
+				t.Errorf("replay reproduced: property=%s sig=%s (attempt %d)", prop, sc.Sig, i+1)
 				return
 			}
 		}
